@@ -10,6 +10,7 @@ are supported:
 
 from __future__ import annotations
 
+import pickle
 from datetime import datetime
 from operator import itemgetter
 from pathlib import Path
@@ -154,7 +155,12 @@ def imread_from_npz(path: Union[Path, list[Path]]) -> darsia.Image:
     """
     npzdata = np.load(path, allow_pickle=True)
     array = npzdata["array"]
-    metadata = npzdata["metadata"].item()
+    metadata = npzdata["metadata"]
+    if metadata.dtype == np.uint8:
+        metadata = pickle.loads(metadata.tobytes())
+    else:
+        # Files written with the metadata pickled by numpy
+        metadata = metadata.item()
     kind = str(npzdata["kind"]) if "kind" in npzdata else None
     if kind == "ScalarImage":
         image = darsia.ScalarImage(array, **metadata)
